@@ -100,6 +100,7 @@ func (r *runningRoutine[K, V]) execute(
 	exitedCh chan struct{},
 	waitCh <-chan struct{},
 ) {
+	verifPoint(0, r.key)
 	var err error
 	if waitCh != nil {
 		select {
@@ -117,6 +118,7 @@ func (r *runningRoutine[K, V]) execute(
 	cancel()
 	close(exitedCh)
 
+	verifPoint(1, r.key)
 	r.k.mtx.Lock()
 	if r.ctx == ctx {
 		r.err = err
@@ -134,6 +136,7 @@ func (r *runningRoutine[K, V]) execute(
 				dur := r.retryBo.NextBackOff()
 				if dur != backoff.Stop {
 					r.deferRetry = time.AfterFunc(dur, func() {
+						verifPoint(2, r.key)
 						r.k.mtx.Lock()
 						if r.k.ctx != nil && r.k.routines[r.key] == r && r.exited {
 							r.start(r.k.ctx, r.exitedCh, true)
@@ -174,6 +177,7 @@ func (r *runningRoutine[K, V]) remove() {
 	}
 
 	timerCb := func() {
+		verifPoint(3, r.key)
 		r.k.mtx.Lock()
 		if r.k.routines[r.key] == r && r.deferRemove != nil {
 			_ = r.deferRemove.Stop()
